@@ -168,6 +168,23 @@ def run(tier, rnd, out):
         rep.append(c)
         if rnd.random() < .35: rep += [c] * rnd.choice([1, 1, 2])          # an idle device repeats its broadcast unchanged
     run_stream(out, "through-a-running-bridge", rep, via_bridge=True)
+    # the same through a bridge that was stopped and started again twice before the broadcasts arrive, and through a bridge constructed
+    # without a port list (the four ports of the documentation), one broadcast of every family to every port
+    from props import c06
+    for label, kw in (("through-a-bridge-that-was-restarted", {"restarts": 2}), ("through-a-bridge-on-its-default-ports", {"ports": world.WELL_KNOWN_PORTS})):
+        if "ports" in kw and not world.well_known_ports():
+            out.notes.append("the library's default ports are taken on this machine: stream %s not run" % label); continue
+        cs = [mk_case(rnd, rand_desc(rnd, ty)) for ty in TYPES for _ in range(4)]
+        enc = encode(cs); events = [(k % 4, d) for k, (d, _) in enumerate(enc)]
+        async def go():
+            log, nh, nw, complete = await world.feed_bridge(4, events, (), show, c06.sentinel, **kw)
+            if not complete: log, nh, nw, complete = await world.feed_bridge(4, events, (), show, c06.sentinel, **kw)
+            return log
+        log = asyncio.run(go()); left = list(log); io = []
+        for _, e in enc:
+            if e in left: left.remove(e); io.append(e)
+            else: io.append("not delivered (the callback got: %s)" % (left[:1] or "nothing more"))
+        lib.differential(out, label, cs, io, None, [e for _, e in enc], describe, sample=lambda c: describe(c)[:300], classify=lambda c, i: label)
     caps = captures()
     io = [impl(d) for d in caps]; mo = lib.run_model([lib.req("bcast", d) for d in caps])
     lib.differential(out, "captures", [{"datagram": d.hex()} for d in caps], io, mo, None, lambda c: "capture " + c["datagram"][:40])
